@@ -149,6 +149,15 @@ struct Session {
     wpos: [u64; 2],
 }
 
+/// `rng.usize(n)` that tolerates `n == 0` (a mutated implementation may leave the wire empty)
+fn us(rng: &mut hcore::Rng, n: usize) -> usize {
+    if n == 0 {
+        0
+    } else {
+        rng.usize(n)
+    }
+}
+
 fn dir_of(s: &str) -> Option<usize> {
     match s {
         "ab" => Some(0),
@@ -299,7 +308,7 @@ impl Session {
             "f" => {
                 let o = self.sender(d);
                 let mut res = None;
-                for _ in 0..10_000_000 {
+                for _ in 0..1_000_000 {
                     match Pin::new(&mut *o).poll_flush(&mut cx) {
                         Poll::Pending => continue,
                         Poll::Ready(r) => {
@@ -471,10 +480,10 @@ impl<'a> Runner<'a> {
             }
             let k = match style {
                 0 => a,
-                1 => 1 + rng.usize(8),
+                1 => 1 + us(rng, 8),
                 2 => 8192,
-                3 => 1 + rng.usize(a.min(70000)),
-                _ => 1 + rng.usize(40),
+                3 => 1 + us(rng, a.min(70000)),
+                _ => 1 + us(rng, 40),
             };
             self.op(&format!("d {d} {k}"));
         }
@@ -574,7 +583,7 @@ fn run_class(class: &str, idx: u64, rng: &mut hcore::Rng, out: &mut hcore::Out, 
                     }
                     if rng.chance(1, 4) {
                         // partial delivery + reads before everything is flushed
-                        r.op(&format!("d {d} {}", 1 + rng.usize(30)));
+                        r.op(&format!("d {d} {}", 1 + us(rng, 30)));
                         r.op(&format!("r {d} {}", rng.pick(small_reads)));
                     }
                 }
@@ -586,7 +595,7 @@ fn run_class(class: &str, idx: u64, rng: &mut hcore::Rng, out: &mut hcore::Out, 
         }
         "boundary" => {
             let d = *rng.pick(&["ab", "ba"]);
-            let sizes = [0usize, 1, 2, maxf - 1, maxf, maxf + 1, 2 * maxf + 3, 1 + rng.usize(2 * maxf)];
+            let sizes = [0usize, 1, 2, maxf - 1, maxf, maxf + 1, 2 * maxf + 3, 1 + us(rng, 2 * maxf)];
             let nwrites = rng.range(1, 3);
             let mut total = 0usize;
             for _ in 0..nwrites {
@@ -625,6 +634,10 @@ fn run_class(class: &str, idx: u64, rng: &mut hcore::Rng, out: &mut hcore::Out, 
                 r.op(&format!("f {d}"));
             }
             let wl = r.avail(di);
+            if wl < 2 {
+                r.out.end();
+                return;
+            }
             // frame starts (header positions) of the untouched wire
             let mut starts = vec![];
             {
@@ -639,28 +652,28 @@ fn run_class(class: &str, idx: u64, rng: &mut hcore::Rng, out: &mut hcore::Out, 
                 Some((_, p, m)) => (p.min(wl.max(1) - 1), m),
                 None => {
                     let pos = if class == "tamperhdr" {
-                        *rng.pick(&starts) + rng.usize(2)
+                        *rng.pick(&starts) + us(rng, 2)
                     } else if rng.chance(1, 3) {
                         // boundaries: first/last ciphertext byte of a frame
                         let s = *rng.pick(&starts);
                         let l = ((r.sess.awire[di][s] as usize) << 8) | r.sess.awire[di][s + 1] as usize;
-                        *rng.pick(&[s + 2, s + 1 + l, s + 2 + l - 16, s + 2 + l - 17])
+                        *rng.pick(&[s + 2, s + 1 + l, (s + 2 + l).saturating_sub(16), (s + 2 + l).saturating_sub(17)])
                     } else {
-                        rng.usize(wl)
+                        us(rng, wl)
                     };
-                    let rm = 1 + rng.usize(255);
+                    let rm = 1 + us(rng, 255);
                     (pos.min(wl - 1), *rng.pick(&[1usize, 2, 0x80, 0xff, rm]))
                 }
             };
             // optionally part of the wire is already delivered (and read) before the corruption
             if forced.is_none() && rng.chance(1, 3) {
-                r.op(&format!("d {d} {}", rng.usize(pos + 1)));
+                r.op(&format!("d {d} {}", us(rng, pos + 1)));
                 r.op(&format!("r {d} {}", rng.pick(small_reads)));
             }
             r.op(&format!("x {d} {pos} {mask}"));
             if forced.is_none() && rng.chance(1, 6) {
-                let p2 = rng.usize(wl);
-                r.op(&format!("x {d} {p2} {}", 1 + rng.usize(255)));
+                let p2 = us(rng, wl);
+                r.op(&format!("x {d} {p2} {}", 1 + us(rng, 255)));
             }
             let style = if class == "tamperbig" { *rng.pick(&[0u64, 2, 3]) } else { *rng.pick(&[0u64, 1, 4]) };
             r.deliver(d, rng, style);
@@ -692,9 +705,13 @@ fn run_class(class: &str, idx: u64, rng: &mut hcore::Rng, out: &mut hcore::Out, 
                 }
                 starts.push(w.len());
             }
+            if starts.len() < 2 || *starts.last().unwrap() != r.sess.awire[di].len() {
+                r.out.end();
+                return;
+            }
             let nf = starts.len() - 1;
-            let i = rng.usize(nf);
-            let j = rng.usize(nf);
+            let i = us(rng, nf);
+            let j = us(rng, nf);
             match rng.below(6) {
                 0 => {
                     // drop frame i
@@ -720,7 +737,7 @@ fn run_class(class: &str, idx: u64, rng: &mut hcore::Rng, out: &mut hcore::Out, 
                 }
                 4 => {
                     // truncate at a random point, later append the remainder of another frame
-                    let a = rng.usize(starts[nf]);
+                    let a = us(rng, starts[nf]);
                     r.op(&format!("cut {d} {a} {}", starts[nf]));
                     if rng.bool() {
                         r.op(&format!("rep {d} {a} {} {}", starts[j], starts[j + 1]));
@@ -728,12 +745,12 @@ fn run_class(class: &str, idx: u64, rng: &mut hcore::Rng, out: &mut hcore::Out, 
                 }
                 _ => {
                     // arbitrary cut and arbitrary insertion
-                    let a = rng.usize(starts[nf]);
-                    let b = a + 1 + rng.usize(starts[nf] - a);
+                    let a = us(rng, starts[nf]);
+                    let b = a + 1 + us(rng, starts[nf] - a);
                     r.op(&format!("cut {d} {a} {b}"));
-                    let p = rng.usize(r.avail(di) + 1);
-                    let s = rng.usize(starts[nf]);
-                    let e = s + 1 + rng.usize(starts[nf] - s);
+                    let p = us(rng, r.avail(di) + 1);
+                    let s = us(rng, starts[nf]);
+                    let e = s + 1 + us(rng, starts[nf] - s);
                     r.op(&format!("rep {d} {p} {s} {e}"));
                 }
             }
@@ -750,7 +767,7 @@ fn run_class(class: &str, idx: u64, rng: &mut hcore::Rng, out: &mut hcore::Out, 
             }
             let wl = r.avail(di);
             // deliver everything or stop in the middle, then end of stream
-            let upto = if rng.bool() { wl } else { rng.usize(wl + 1) };
+            let upto = if rng.bool() { wl } else { us(rng, wl + 1) };
             if upto > 0 {
                 r.op(&format!("d {d} {upto}"));
             }
@@ -791,7 +808,7 @@ fn run_class(class: &str, idx: u64, rng: &mut hcore::Rng, out: &mut hcore::Out, 
                     3 => {
                         let a = r.avail(di);
                         if a > 0 {
-                            r.op(&format!("d {d} {}", 1 + rng.usize(a)));
+                            r.op(&format!("d {d} {}", 1 + us(rng, a)));
                         }
                     }
                     _ => {
